@@ -15,7 +15,9 @@ func TestMakeExemplars(t *testing.T) {
 		t.Skip("VERIF_MAKE_EXEMPLARS not set")
 	}
 	str := func(s string) vtree.Tree { return vtree.Tree{K: "str", S: s} }
-	m := func(k string, v vtree.Tree) vtree.Tree { return vtree.Tree{K: "map", Keys: []string{k}, X: []vtree.Tree{v}} }
+	m := func(k string, v vtree.Tree) vtree.Tree {
+		return vtree.Tree{K: "map", Keys: []string{k}, X: []vtree.Tree{v}}
+	}
 	cases := map[string]Case{
 		"F21-key-injects-attribute":     {Tree: m("a=\"1\" b", vtree.Tree{K: "int", I: 1}), MaxList: 3},
 		"F21-key-with-blank":            {Tree: m("a b", vtree.Tree{K: "int", I: 1}), MaxList: 3},
